@@ -22,6 +22,18 @@ pub enum Function {
     Polynomial(v1::Polynomial),
 }
 
+impl Function {
+    /// IDs of the decision variables (and parameters) used in this function
+    pub fn used_decision_variable_ids(&self) -> std::collections::BTreeSet<u64> {
+        match self {
+            Function::Constant(_) => Default::default(),
+            Function::Linear(l) => l.used_decision_variable_ids(),
+            Function::Quadratic(q) => q.used_decision_variable_ids(),
+            Function::Polynomial(p) => p.used_decision_variable_ids(),
+        }
+    }
+}
+
 impl Parse for v1::Function {
     type Output = Function;
     type Context = ();
